@@ -1169,3 +1169,74 @@ Proof.
   assert (l = []) by (destruct l; [reflexivity|]; simpl in E1; destruct (rev l); discriminate). subst. simpl in Hlen. lia.
 Qed.
 End Progress.
+
+(* ---------------------------------------------------------------------------------------------- *)
+(* 12. k_alt_partition_approx (C18): terminates and returns a valid partition into single-peaked axes *)
+
+From PrefVerif Require Import Model.Partition.
+
+Section Approx.
+Variable pair_first : N -> N -> bool.
+Variable ext_order : list (list N) -> list (list N).
+Hypothesis Hext : forall l X, In X (ext_order l) <-> In X l.
+
+Lemma axis_ok_of_sound votes axis : NoDup axis ->
+  sp_axis_profile (map strictify (map (restrict_ranking axis) votes)) axis = true -> axis_ok votes axis = true.
+Proof.
+  intros Hnd Hsp. unfold axis_ok, sp_check_axis, spw_check_axis, restrict_profile. rewrite Hsp, andb_true_r.
+  apply valid_axis_correct; [assumption|apply Permutation_refl].
+Qed.
+
+Lemma approx_loop_ok votes : votes <> [] ->
+  forall fuel alts axes0, NoDup alts -> (forall v, In v votes -> NoDup v /\ incl alts v) -> length alts < fuel ->
+  exists axes', approx_loop pair_first ext_order fuel alts votes axes0 = Ok (axes0 ++ axes') /\
+                Permutation alts (concat axes') /\ forallb (axis_ok votes) axes' = true.
+Proof.
+  intros Hvne. induction fuel as [|f IH]; intros alts axes0 Hnd Hv Hlt; [lia|].
+  destruct alts as [|a0 alts'] eqn:Ea.
+  - exists []. simpl. rewrite app_nil_r. auto.
+  - rewrite <- Ea in *. assert (Hane : alts <> []) by (rewrite Ea; discriminate).
+    assert (Hext1 : forall l X, In X (ext_order l) -> In X l) by (intros l X; apply Hext).
+    assert (Hext2 : forall l X, In X l -> In X (ext_order l)) by (intros l X; apply Hext).
+    destruct (longest_axis_sound pair_first ext_order Hext1 alts votes Hnd Hv) as (S1 & S2 & S3 & S4).
+    pose proof (longest_axis_nonempty alts votes pair_first ext_order Hext2 Hnd Hane Hvne Hv) as Hne.
+    destruct (longest_axis pair_first ext_order alts votes) as [axis rest] eqn:EL. cbn [fst snd] in *.
+    assert (Hrest : NoDup rest /\ incl rest alts /\ length rest < length alts).
+    { assert (Hnd' : NoDup (axis ++ rest)) by (eapply Permutation_NoDup; eauto).
+      split; [now apply NoDup_app_r in Hnd'|]. split.
+      - intros a Ha. eapply Permutation_in; [apply Permutation_sym; exact S3|]. apply in_or_app. now right.
+      - apply Permutation_length in S3. rewrite app_length in S3. destruct axis; [congruence|]. simpl in S3. lia. }
+    destruct Hrest as (R1 & R2 & R3).
+    destruct (IH rest (axes0 ++ [axis]) R1) as (axes' & E & P & F).
+    + intros v Hin. destruct (Hv v Hin) as [N1 N2]. split; [assumption|]. intros a Ha. apply N2. now apply R2.
+    + lia.
+    + exists (axis :: axes'). split; [|split].
+      * rewrite Ea. cbn [approx_loop]. rewrite <- Ea, EL, E, <- app_assoc. reflexivity.
+      * simpl. eapply perm_trans; [exact S3|]. now apply Permutation_app_head.
+      * simpl. rewrite F, andb_true_r. now apply axis_ok_of_sound.
+Qed.
+
+Theorem approx_valid alts votes : NoDup alts -> votes <> [] -> (forall v, In v votes -> NoDup v /\ incl alts v) ->
+  exists axes, k_alt_partition_approx pair_first ext_order alts votes = Ok axes /\
+               partition_check alts votes axes = true.
+Proof.
+  intros Hnd Hvne Hv. unfold k_alt_partition_approx.
+  destruct (approx_loop_ok votes Hvne (S (length alts)) alts [] Hnd Hv (Nat.lt_succ_diag_r _)) as (axes & E & P & F).
+  exists axes. split; [exact E|]. unfold partition_check. rewrite F, andb_true_r. now apply valid_axis_correct.
+Qed.
+End Approx.
+
+(* ---------------------------------------------------------------------------------------------- *)
+(* 13. no IndexError in last_check: the lists whose last element is taken are not empty            *)
+
+Lemma last_check_defined (v Y : list N) x1 x2 : In x1 v ->
+  filter (fun a => memN a ([x1; x2] ++ Y)) v <> [] /\
+  filter (fun a => memN a [x1; x2]) (filter (fun a => memN a ([x1; x2] ++ Y)) v) <> [].
+Proof.
+  intros H1.
+  assert (A : In x1 (filter (fun a => memN a ([x1; x2] ++ Y)) v)).
+  { apply filter_In. split; [assumption|]. apply memN_In. now left. }
+  assert (B : In x1 (filter (fun a => memN a [x1; x2]) (filter (fun a => memN a ([x1; x2] ++ Y)) v))).
+  { apply filter_In. split; [assumption|]. apply memN_In. now left. }
+  split; intros E; [rewrite E in A|rewrite E in B]; contradiction.
+Qed.
